@@ -86,6 +86,47 @@ Proof. exact C05_small_nonvacuous. Qed.
 Print Assumptions C05_nodes_partial.
 Print Assumptions C05_denote_expand.
 Print Assumptions C05_small.
+(** the remaining classes: an ISOMORPHISM INVARIANT of the two graphs differs, so no renumbering exists *)
+(** {[#X][#A]([#B][#G]([#D])[#E])|3[#C]}: numbers of nodes of degree 1, 2, 3 are 7,5,5 against 8,3,6 *)
+Theorem C05_refuted_nested_in_unit : exists a,
+  wf fo0 a = true /\ class_C05 true a = 5%nat /\ count_nodes (short_of fo0 true a) = count_nodes (long_of fo0 true a)
+  /\ degree_profile (short_of fo0 true a) <> degree_profile (long_of fo0 true a).
+Proof.
+  exists [nd "X"; Item (S "A") [] None None [Branch [nd "B"; Item (S "G") [] None None [Branch [nd "D"] None None]; nd "E"] three None]; nd "C"].
+  vm_compute. repeat split; discriminate.
+Qed.
+(** {[#X][#A]([#B])([#D])|2[#C]}: one node named A against two (the anchor copy is named B) *)
+Theorem C05_refuted_sibling_before_mult : exists a,
+  wf fo0 a = true /\ class_C05 true a = 6%nat
+  /\ count_nodes_named (S "A") (short_of fo0 true a) <> count_nodes_named (S "A") (long_of fo0 true a).
+Proof.
+  exists [nd "X"; Item (S "A") [] None None [Branch [nd "B"] None None; Branch [nd "D"] two None]; nd "C"].
+  vm_compute. repeat split; discriminate.
+Qed.
+(** [#A]([#B])|2 without braces: IndexError, whatever the renumbering *)
+Theorem C05_refuted_mult_at_end : exists a,
+  wf fo0 a = true /\ class_C05 false a = 7%nat /\ forall m, model_C05 fo0 false a (Some m) <> 0%nat.
+Proof.
+  exists [Item (S "A") [] None None [Branch [nd "B"] two None]].
+  split; [vm_compute; reflexivity|]. split; [vm_compute; reflexivity|]. intros m. vm_compute. discriminate.
+Qed.
+(** {[#A]#([#B]|2)|2}: three edges of order 3 against two *)
+Theorem C05_refuted_nodemult_order_in_unit : exists a,
+  wf fo0 a = true /\ class_C05 true a = 9%nat
+  /\ count_edges_order 3 (short_of fo0 true a) <> count_edges_order 3 (long_of fo0 true a).
+Proof.
+  exists [Item (S "A") [] None (Some STriple) [Branch [Item (S "B") [] (Some [2%nat]) None []] two None]].
+  vm_compute. repeat split; discriminate.
+Qed.
+(** {[#Q]([#A]([#X])[#D]([#B])|2[#E])}: nine nodes against eight *)
+Theorem C05_refuted_stale_recipe : exists a,
+  wf fo0 a = true /\ class_C05 true a = 10%nat /\ count_nodes (short_of fo0 true a) <> count_nodes (long_of fo0 true a).
+Proof.
+  exists [Item (S "Q") [] None None [Branch [Item (S "A") [] None None [Branch [nd "X"] None None];
+                                              Item (S "D") [] None None [Branch [nd "B"] two None]; nd "E"] None None]].
+  vm_compute. repeat split; discriminate.
+Qed.
+
 Print Assumptions C05_refuted_double_close.
 Print Assumptions C05_refuted_nodemult_sym.
 Print Assumptions C05_refuted_bmult_one.
